@@ -589,6 +589,8 @@ class Engine:
             return memo[id(v)]
         if isinstance(v, SV):
             r = SV(z3.substitute(v.z, *pairs), v.kind, tag=v.tag)
+            if v.shape is not None:
+                r.shape = tuple(z3.substitute(d, *pairs) if z3.is_expr(d) else d for d in v.shape)
             memo[id(v)] = r
             if v.app is not None:
                 r.app = (v.app[0], [self.subst(a, pairs, memo) for a in v.app[1]], v.app[2])
